@@ -90,6 +90,14 @@ type fnItem struct {
 func mkFn(sh symShape, uniq string) fnItem {
 	// uniq makes the symbol distinct within one case.
 	name := sh.name + uniq
+	if strings.HasSuffix(sh.name, "[...]") && !strings.HasSuffix(sh.name, "Map[...]") {
+		// the generic marker stays at the very end (and a bare marker stays bare)
+		base := strings.TrimSuffix(strings.TrimSuffix(sh.name, "[...]"), ".")
+		name = "[...]"
+		if base != "" {
+			name = base + strings.ReplaceAll(uniq, "ₓ", "_") + ".[...]"
+		}
+	}
 	it := fnItem{row: sh.row, name: name}
 	if sh.pkg == "" {
 		it.text = name
